@@ -8,7 +8,7 @@ CHECKS = {
     "C13": dict(
         technique="runtime monitoring: exhaustive operator/value matrix executed through run_checks, judged by a Python reference oracle",
         text="Every ordered pair of a 46-value universe x 5 comparison operators x both polarities x {query RHS, literal RHS, literal-bound variable as LHS}, random operands beyond the universe (random 64-bit integers and neighbours, random-bit-pattern doubles, unicode strings), the in-list (incl. a literal on the left and a document list on the right - as a list value, as its elements, through a query-bound variable, under `some`), "
-             "range-bracket and regex forms are executed against the real evaluator and each verdict is compared with Python "
+             "range-bracket and regex forms (pattern literal, pattern in a variable on the right and on the left) are executed against the real evaluator and each verdict is compared with Python "
              "semantics on the model values. Exhaustive on that finite universe; says nothing outside it.",
         note="Trusts: Python int/float/str comparison and re.search as the reference; json round trip of the universe. "
              "List-flattening pairs are excluded (documented behaviour).",
@@ -30,7 +30,7 @@ CHECKS["C02"] = dict(
     technique="runtime monitoring: offline checker over the recorded evaluation-record tree + online hook assertions on record open/close",
     text="All CNF shapes up to 3x3 with leaves forced to PASS/FAIL/SKIP are evaluated at 9 composition sites (thorough: all ~490k; quick: "
          "all shapes with <=2 lines plus a sample) and random programs with type blocks, parameterised rules, nested when/blocks are "
-         "evaluated on random documents; every status assignment of 1-3 definitions of one rule name x 5 ways of naming it (clause, not, when, when !, or line) x user before/after is checked against `the first definition that is not SKIP decides`. Each emitted EventRecord tree is checked node by node against the property's composition "
+         "evaluated on random documents; every status assignment of 1-3 definitions of one rule name x 5 ways of naming it (clause, not, when, when !, or line) x user before/after is checked against `the first definition that is not SKIP decides`, and a parameterised rule forced to PASS / FAIL / SKIP x 6 call forms. Each emitted EventRecord tree is checked node by node against the property's composition "
          "rules, the rule status against the formula over the forced leaves, the hook stream for balanced records, and the root "
          "status against the structured report and the exit code of `validate --print-json`; with 2-3 data files in one run every root of the printed list is checked against its own data file and the exit code against the worst of them.",
     note="Trusts the leaf gadgets to have the intended status (itself asserted through the tree). Filter records are treated as "
@@ -41,7 +41,7 @@ CHECKS["C04"] = dict(
     technique="runtime monitoring: metamorphic order/repetition monitor with hook-observed memoisation histories",
     text="Random base programs that share variables and named references (30% with an alternative, `when`-guarded definition of a rule name) are evaluated together with up to ~25 order/repetition "
          "transforms each (all permutations of small rule bodies and rule orders, shuffled alternatives, duplicated lines, alternatives "
-         "and rules, early/late references, inserted filter lines that select nothing and therefore skip) on 2-3 documents; rule->status maps must agree. The verif-hooks event stream shows "
+         "and rules, early/late references, a map with case-variant spellings of its keys addressed in a third spelling under 26 rule orders and all line orders, inserted filter lines that select nothing and therefore skip) on 2-3 documents; rule->status maps must agree. The verif-hooks event stream shows "
          "how many distinct variable-resolution orders and rule-status hit/miss patterns were actually exercised.",
     note="Groups where any variant errors are inconclusive (the property's proviso). Trusts the printer/parser round trip of the generated AST.",
     ref="DESIGN.md §6 P-C04")
@@ -62,7 +62,7 @@ CHECKS["C14"] = dict(
     text="Each generated program is pretty-printed canonically and with every single-occurrence flip of every documented token class "
          "(keyword case, not/NOT/!, or/OR/|OR|, =/:=, quotes, .n/[n], leading this., several blanks or a tab after not/NOT and between the tokens of a clause, indentation, blank lines, trailing spaces, line breaks in "
          "lists/filters, # comments) plus random combinations; `parse-tree --print-json` of variant and canonical text must be the same AST "
-         "(locations removed), sampled verdicts must agree; type blocks are compared with their desugaring and file-level clauses with `rule default` by verdict; an explicit-`this` matrix (clause forms x block / filter / when contexts, with and without `this.`) is compared by verdict on documents that make both outcomes occur.",
+         "(locations removed), sampled verdicts must agree; type blocks are compared with their desugaring and file-level clauses with `rule default` by verdict (incl. a file-level `when` block that names helper rules); an explicit-`this` matrix (clause forms x block / filter / when contexts, with and without `this.`) is compared by verdict on documents that make both outcomes occur.",
     note="A variant that fails to parse is a violation. Documented restrictions (reference ends its line) are never varied. Leading `this` is normalised in the AST and checked by verdict.",
     ref="DESIGN.md §6 P-C14")
 
@@ -82,7 +82,7 @@ CHECKS["C05"] = dict(
     text="29 command/output modes (incl. two runs that end in an evaluation error naming the rules of the file - stderr compared; validate structured json/yaml/sarif/junit, plain json/yaml, print-json, console variants, parse-tree, test in "
          "4 renderings, rulegen (template with values and property names that differ only in letter case or type), and 4 modes of function rules: parse_epoch over 12 timestamp spellings incl. zone-less and DST-gap ones, case mapping, "
          "conversions, join/regex_replace; 2 console modes on Terraform-plan-shaped data; 3 modes writing to an --output file that held other content before) are each run 5 (quick) / 8 (thorough) times as fresh processes of the shipped binary - fresh hash seeds - under "
-         "rotated TZ (tzdata names and POSIX strings)/LANG/HOME/COLUMNS/NO_COLOR/CLICOLOR_FORCE/RUST_BACKTRACE/cwd/pipe-vs-file, and payload modes 5 times inside one process; exit codes must be "
+         "input files re-stamped in another modification-time order before every run, rotated TZ (tzdata names and POSIX strings)/LANG/HOME/COLUMNS/NO_COLOR/CLICOLOR_FORCE/RUST_BACKTRACE/cwd/pipe-vs-file, and payload modes 5 times inside one process; exit codes must be "
          "equal, structured output byte-identical (elapsed-time fields masked), console output equal as a multiset of lines; what a structured "
          "json/yaml/junit/sarif batch says about one data file must equal what the run on that file alone says (nothing evaluated earlier in the process); rules iterate map keys with key filters (`[ keys == | != | in | not in ]`) so that map iteration order is observable.",
     note="A random ordering of k items escapes N runs with probability (1/k!)^(N-1); inputs have >=3 rules/files per collection. Environment rotation is a sample, not all environments.",
@@ -94,7 +94,7 @@ CHECKS["C09"] = dict(
          "structured report (library and `validate --structured -o json`) is checked against the verbose record tree of the same "
          "evaluation: each rule in exactly the partition its status dictates, file-status rule, batch report over 1-3 rules files (distinct names or one base name in different directories) == union of "
          "single reports, every reported leaf check attributable (by message) to a FAIL value check in that rule's own subtree; records and report entries of "
-         "parameterised calls (incl. nested and message-less ones) must carry exactly the message written at that call in the rules text.",
+         "parameterised calls (incl. nested and message-less ones) must carry exactly the message written at that call in the rules text; every listed `in` / ordering comparison must fail on the very values it prints (query-vs-query clauses with partial matches included).",
     note="The verbose tree is the ground truth (its own consistency is C02). Reported leaves are matched by custom message; leaves without a message match any FAIL record of the rule.",
     ref="DESIGN.md §6 P-C09")
 
@@ -113,7 +113,7 @@ CHECKS["C12"] = dict(
     technique="runtime monitoring: batch-vs-singleton differential monitor with hook-observed scope lifetimes",
     text="Batches of 1-3 rules files that share variable and rule names with different definitions x 2-4 documents differing exactly in the "
          "queried keys are validated as explicit files in several orders (plain and structured), as directories with -a and -m (explicit mtimes), "
-         "as payload lists (half of the batches with an --input-parameters document read by every rules file), as structured junit and sarif batches (per-data-file testsuite / result units vs the stand-alone run), with data files of one base name in different directories, and as multi-case `test` files; 30% of the batches make 24-40 parameterised-rule calls per pair (per-call bookkeeping must start afresh), a pair that only fails after other evaluations in the same process is a violation; every (rules, data) pair's report must equal the report of the pair validated alone and "
+         "as payload lists (half of the batches with an --input-parameters document read by every rules file), as structured junit and sarif batches (per-data-file testsuite / result units vs the stand-alone run), with data files of one base name in different directories, and as multi-case `test` files; 40% of the batches contain an empty / blank rules file (listed anywhere, walked first), 30% make 24-40 parameterised-rule calls per pair (per-call bookkeeping must start afresh), a pair that only fails after other evaluations in the same process is a violation; every (rules, data) pair's report must equal the report of the pair validated alone and "
          "the exit status must be the maximum over the pairs (40% of the batches end with a rules file every document satisfies). verif-hooks events assert one root scope per pair and no memo hit before a miss in a scope.",
     note="Reports are compared after removing file names and line/column details. In structured mode compliant/not_applicable are name sets by design.",
     ref="DESIGN.md §6 P-C12")
@@ -131,7 +131,7 @@ CHECKS["C16"] = dict(
 CHECKS["C17"] = dict(
     technique="runtime monitoring: differential monitor against the pre-merged document, over all -i orders and modes",
     text="Documents are split at random into data + 1-3 parameter files (JSON/YAML, differing sizes; flat names, the same base name in different "
-         "directories, or one directory given to -i, with stray non-data files in it); validating with -i in every order, in plain and "
+         "directories, or one directory given to -i, with stray non-data files in it; 30% of the parameter files are symbolic links); validating with -i in every order, in plain and "
          "structured mode, with one or two data files and in payload mode must give the verdicts and exit class of validating the pre-merged document; "
          "rules read keys by name and iterate the merged root map (`this.*`, `[ keys == | in | regex ]`); a deliberately overlapping key (param/param, "
          "data/param; scalar, list and map values, equal or different) must produce an error exit without a verdict - not a crash, not a silent choice - in both modes.",
@@ -151,7 +151,7 @@ CHECKS["C18"] = dict(
     technique="runtime monitoring: reference-model monitor (independent Python implementation of docs/FUNCTIONS.md) over observed function results",
     text="`let r = f(args)` is evaluated for every function x 23 argument queries (unicode, numeric strings, mixed-type lists, unresolved members first / in the middle / last / only, empty "
          "selections) x literal/query/variable/nested/file-level-let/call-argument forms, substring over 13x13 offsets (incl. -1, len, >=65536), join delimiters and empty members, "
-         "regex_replace full/partial/no match, 45 boolean/integer/float spellings one by one, random literals, and json round trips on random documents; the result list is read back through a failing "
+         "regex_replace full/partial/no match, 45 boolean/integer/float spellings and 21 integers (boundaries, values that wrap to a digit in 8/16/32 bits) through all converters one by one, random literals, and json round trips on random documents; the result list is read back through a failing "
          "clause on %r and compared, type-strictly and in order, with the reference; unparsable input must raise an error, never a value.",
     note="The reference abstains (UNSPEC, counted in evidence) where the documentation is silent; Python re / urllib / float parsing are trusted on the restricted inputs.",
     ref="DESIGN.md §6 P-C18")
@@ -171,7 +171,7 @@ CHECKS["C11"] = dict(
 
 CHECKS["C10"] = dict(
     technique="runtime monitoring: independent pointer-walk and source-position monitor over structured reports and hooked loader dumps",
-    text="Documents (incl. random doubles, 64-bit integers, YAML literal/folded block scalars, ASCII-escaped JSON strings, JSON members shadowed by an earlier member of the same key; CRLF, leading blank lines, tab-indented JSON) written by a position-tracking emitter in 4 layouts are validated against rules that fail on every node (one clause per scalar, "
+    text="Documents (incl. random doubles, 64-bit integers, YAML literal/folded block scalars, ASCII-escaped JSON strings, JSON members shadowed by an earlier member of the same key, subtrees under empty-string keys; CRLF, leading blank lines, tab-indented JSON) written by a position-tracking emitter in 4 layouts are validated against rules that fail on every node (one clause per scalar, "
          "unresolved probes below every map/list/scalar incl. keys taken from variables (`a.%k`), `in`, list iteration, filter-then-[*] on lists of lists and query right-hand sides); every reported from/to/traversed_to {path, "
          "value} is resolved in the model document by an independent walk and must yield exactly that value, unresolved reports must stop at the "
          "deepest existing point of the queried path, and every [L,C] in messages - and, through the verif-hooks loader probe, of every scalar node - "
@@ -182,7 +182,7 @@ CHECKS["C10"] = dict(
 CHECKS["C08"] = dict(
     technique="runtime monitoring: crash/hang watchdog monitor over mutation and adversarial-grammar workloads, an arithmetic-overflow-checked build of the same worker, plus valgrind memcheck on the unsafe YAML loader paths",
     text="Mutated rule texts, 41 adversarial but grammatical program shapes (filters after this/index/filter/keys, literal and function LHS, unary "
-         "operators on literals, mismatched/empty/unresolved function arguments, huge indices, self/mutual/when recursion, duplicate-name cycles, cyclic variable definitions, recursive parameterised rules, NaN/infinity operands, odd custom messages, wrong arity, backtracking "
+         "operators on literals, mismatched/empty/unresolved function arguments, huge indices, self/mutual/when recursion, duplicate-name cycles, cyclic variable definitions, recursive parameterised rules, NaN/infinity operands, odd custom messages, quoted keys that look like other tokens (`\"% used\"`, `'%'`, `\"*\"`, `\"\"`), wrong arity, backtracking "
          "regexes, multi-byte substrings ...), generated programs with all features on, and 24 hostile documents plus mutated ones (as data, parameter file, "
          "test spec, payload envelope), CloudFormation- and Terraform-plan-shaped documents (template-aware console views) and ~60 omitted/conflicting/unsupported argument combinations are run through validate (files, payload, structured, `.ruleset` files and mixed rules directories), test (one and several test files per run, directories), parse-tree, rulegen (real processes, non-UTF-8 files) and "
          "run_checks. The worker captures panics with file:line, the orchestrator attributes process deaths and watchdog expiries to the running job; rejected "
@@ -193,7 +193,7 @@ CHECKS["C08"] = dict(
 
 CHECKS["C01"] = dict(
     technique="runtime monitoring: reference-model monitor (independent interpreter of the documented semantics) over exhaustive and random programs",
-    text="Every single-clause program over 40 query shapes (14 of them map-key filters `[ keys == | != | in | not in .. ]` with string, regex, mixed-type list and non-string right-hand sides) x some/all x 9 unary and 6 binary operators x all polarity spellings x 14 literals x 3 documents "
+    text="Every single-clause program over 40 query shapes (14 of them map-key filters `[ keys == | != | in | not in .. ]` with string, regex, mixed-type list and non-string right-hand sides) x some/all x 9 unary and 6 binary operators x all polarity spellings x 14 literals and 4 right-hand queries (3 of them selecting nothing) x 3 documents "
          "(~47k, exhaustive in both tiers) and random core-language programs (queries with * [*] [n] [filter] [keys filter], keys taken from variables, blocks, when guards, named references, let "
          "variables incl. `some` bindings, CNF, type blocks) on random documents are evaluated by the real evaluator and by gvlib/refint.py, a ~400-line "
          "interpreter written from the documentation with a different structure (result set -> truth values -> aggregation; no memo, no records); per-rule "
